@@ -218,7 +218,21 @@ class Impl:
         elif k == "info":
             r = rt.run("info", [at], now, cwd)
         elif k == "infosf":
-            r = rt.run("info", [at, "-sf", os.path.join(absat, op["file"])], now, cwd)
+            if not os.path.exists(os.path.join(absat, op["file"])) or not os.path.isdir(absat):
+                return None
+            if op.get("auto_root"):
+                # no ROOT_PATH: the tool searches upwards for the nearest ascmhl folder
+                r = rt.run("info", ["-sf", os.path.join(absat, op["file"])], now, cwd)
+            else:
+                r = rt.run("info", [at, "-sf", os.path.join(absat, op["file"])], now, cwd)
+        elif k == "verifypl":
+            pl = getattr(self, "last_pl", None)
+            if pl is None:
+                return None
+            args = [at, "-pl", pl]
+            for i in op.get("i", []):
+                args += ["-i", i]
+            r = rt.run("verify", args, now, cwd)
         elif k == "flatten":
             self.flat_n += 1
             dest = os.path.join(self.base, "_flat%d" % self.flat_n)
@@ -247,6 +261,9 @@ class Impl:
         obs["written"] = sorted(written, key=lambda w: (w["hist"], w["file"]))
         if k == "flatten" and os.path.isdir(op["_dest"]):
             pls = glob.glob(os.path.join(glob.escape(op["_dest"]), "*", "*.mhl"))
+            if pls:
+                self.last_pl = sorted(pls)[-1]
+            obs["flatten_dest"] = {os.path.relpath(os.path.join(dp, f), op["_dest"]): open(os.path.join(dp, f), "rb").read() for dp, _, fs in os.walk(op["_dest"]) for f in fs}
             obs["written"] = [{"hist": ".", "gen": rt.read_manifest(p), "file": os.path.basename(p)} for p in sorted(pls)]
         return obs
 
@@ -323,7 +340,7 @@ def compare(op, io, mo):
         return d
     if io["exit"] != mo["exit"]:
         d.append(f"exit impl {io['exit']} model {mo['exit']} (model err {mo.get('err')})")
-    if k in ("create", "verify", "diff"):
+    if k in ("create", "verify", "diff", "verifypl"):
         for key in ("mismatch", "missing", "new"):
             if k == "create" and key == "new":
                 continue
@@ -411,6 +428,9 @@ def run_scenario(sc, drv=None, keep=False, impl_only=False):
                     mop = dict(op)
                     mop["stamp"] = stamp_of(op.get("now", DEFAULT_NOW))
                     mop.pop("_dest", None)
+                    if k in ("verifypl", "infosf") and io is None:
+                        res["steps"].append({"op": op, "impl": None, "model": None})
+                        continue
                     mo = drv.command(mop, commit=(k == "create"))
                     diffs = compare(op, io, mo)
                     if k == "info" and io["exit"] == 0 and io["exc"] is None:
